@@ -481,3 +481,88 @@ def compile_batches(batches, wd, flags, lang="c", contexts=True, edition="2021",
     for r in common.pmap(one, batches):
         out.update(r)
     return out, gen
+
+
+def run_batches_ex(batches, wd, flags, lang="c", raw_lines_fn=None, keep_layout_tests=True, extra_c_cases_fn=None, callbacks=None, timeout=180):
+    """Three-phase variant: (1) C probes, (2) bindgen with per-batch raw lines computed from the C numbers,
+    (3) Rust probe (numbers only) with error isolation. extra_c_cases_fn(cases) -> additional cases measured on the C side only.
+    Returns ({tag: {"c","r","rust_error","missing","gen"}}, {batch name: (gen result, C transcript)})."""
+    os.makedirs(wd, exist_ok=True)
+    ext = "h" if lang == "c" else "hpp"
+    cl = ["--", "-x", "c++", "-std=c++14"] if lang == "cpp" else []
+
+    def cphase(b):
+        name, cases = b
+        hp = os.path.join(wd, f"{name}.{ext}")
+        with open(hp, "w") as f:
+            f.write("\n".join(c.source() for c in cases) + "\n")
+        allc = list(cases) + (extra_c_cases_fn(cases) if extra_c_cases_fn else [])
+        cp = os.path.join(wd, f"{name}_probe.c")
+        with open(cp, "w") as f:
+            f.write(c_probe_source(allc, os.path.basename(hp)))
+        exe = os.path.join(wd, f"{name}_cprobe")
+        rc, _, err = common.clang((["-x", "c++", "-std=c++14"] if lang == "cpp" else ["-std=gnu11"]) + ["-w", "-O0", "-o", exe, cp], cwd=wd)
+        if rc != 0:
+            raise common.Machinery(f"generated C probe does not compile ({name}): {err[:1500]}")
+        return name, parse_transcript(common.sh([exe], timeout=120).stdout.decode())
+
+    ctrs = dict(common.pmap(cphase, batches))
+    jobs = []
+    for name, cases in batches:
+        j = {"id": name, "args": [os.path.join(wd, f"{name}.{ext}"), "--formatter", "prettyplease"] + ([] if keep_layout_tests else ["--no-layout-tests"]) + list(flags) + cl,
+             "inventory": True, "timeout": timeout}
+        if raw_lines_fn:
+            j["raw_lines"] = raw_lines_fn(name, cases, ctrs[name])
+        if callbacks:
+            j["callbacks"] = callbacks
+        jobs.append(j)
+    gen = common.run_jobs(jobs, wd, timeout=timeout)
+
+    def rphase(b):
+        name, cases = b
+        g = gen[name]
+        res = {c.tag: {"c": ctrs[name].get(c.tag), "r": None, "rust_error": None, "missing": [], "gen": g["status"]} for c in cases}
+        if g["status"] != "ok":
+            for c in cases:
+                res[c.tag]["gen_detail"] = g.get("err") or g.get("panic")
+            return res
+        bpath = os.path.join(wd, f"{name}_bindings.rs")
+        with open(bpath, "w") as f:
+            f.write(g["text"])
+        idx = index_inventory(g["inventory"])
+        live = list(cases)
+        for attempt in range(3):
+            src, missing = rust_probe_source_numbers(live, idx, bpath)
+            for t, m in missing.items():
+                res[t]["missing"] = m
+            mp = os.path.join(wd, f"{name}_probe.rs")
+            with open(mp, "w") as f:
+                f.write(src)
+            rexe = os.path.join(wd, f"{name}_rprobe")
+            ok, tags, msgs = rustc_diagnose(mp, rexe, g["text"], bpath)
+            if ok:
+                rtr = parse_transcript(common.sh([rexe], timeout=120).stdout.decode())
+                for c in live:
+                    res[c.tag]["r"] = rtr.get(c.tag)
+                break
+            bt = getattr(rustc_diagnose, "last_by_tag", {})
+            # errors inside the bindings cannot be removed without regenerating: attribute and stop; errors in the probe only drop cases
+            bad = [c for c in live if c.tag in tags]
+            if not bad:
+                for c in live:
+                    res[c.tag]["rust_error"] = ["unattributed: " + "; ".join(sorted(set(msgs))[:3])]
+                break
+            for c in bad:
+                res[c.tag]["rust_error"] = sorted(set(bt.get(c.tag) or msgs[:2]))[:4]
+            live = [c for c in live if c.tag not in tags]
+            # the bindings still contain the failing items: regenerate for the remaining cases only
+            if live:
+                sub, _ = run_batches_ex([(f"{name}_x{attempt}", live)], wd, flags, lang, raw_lines_fn, keep_layout_tests, extra_c_cases_fn, callbacks, timeout)
+                res.update(sub)
+            break
+        return res
+
+    out = {}
+    for r in common.pmap(rphase, batches):
+        out.update(r)
+    return out, {n: (gen[n], ctrs[n]) for n, _ in batches}
